@@ -1,13 +1,20 @@
 """C09 — structurally illegal designs are always rejected at elaboration; defect-free designs elaborate.
 
 theorems (Props/C09.v; models Elab/Address.v, Elab/Defects.v; proofs Elab/AddressProofs.v, Elab/DefectsProofs.v):
-  C09_walk_iff_shared_bit     the structural walk pymtl3 uses (same object / ancestor chain either way / overlapping sibling
+  C09_walk_iff_shared_bit / C09_walk_eq_overlap_in_design
+                              the structural walk pymtl3 uses (same object / ancestor chain either way / overlapping sibling
                               slice with Connectable._overlap) relates two well-formed signal objects IFF their bit intervals
                               in the packed root share a bit: no two-driver bit can escape the walk, no disjoint pair is flagged
-  C09_defect_order_indep      bit_level_defect (and the faithful model) is invariant under permutation of the update-block
-                              write/read facts and of the connect statements and under swapping the sides of any connect
-  C09_elab_complete_refuted   the faithful model of _check_upblk_writes rejects a design whose every bit has one driver
-                              (one block writing two overlapping sibling slices): witness
+  C09_defect_order_indep / C09_bit_level_defect_order_indep / C09_defect_same_statements
+                              "for every ordering of its statements": bit_level_defect (and the faithful model) is invariant
+                              under permutation of the update-block write/read facts and of the connect statements, under
+                              swapping the sides of any connect, and under repeating statements
+  C09_elab_model_iff_bit_level
+                              the faithful model of the implementation's checks (_check_upblk_writes, writer resolution,
+                              _check_port_in_upblk, _check_port_in_nets, operator checks) decides exactly the bit-level property
+                              on every well-formed design in which no block writes two overlapping sibling slices and no net
+                              has two overlapping members
+  C09_elab_complete_refuted   ... and the first exception is real: witness of the over-rejection
 tie (T-diff): random hierarchies with 0 or 1 injected defect (two drivers of a bit: block/block, block/net, net/net, two
   drivers in one net; undriven net; connection loop; port rules Types 1-9 and the loopback rule; wrong assignment operator in
   update / update_ff) and legal near misses (touching slices, parent and field written in one block, duplicate connect,
@@ -20,7 +27,7 @@ tie (T-diff): random hierarchies with 0 or 1 injected defect (two drivers of a b
 partial: error families are compared by exception class only; the order in which two simultaneous defects are reported is
   modelled as the order of the checks in elaborate() and only single injected defects are generated; the iterative writer
   resolution is modelled as a monotone parallel fixed point (proved order-independent), its agreement with the sequential
-  loop of _resolve_value_connections rests on the differential run.
+  loop of _resolve_value_connections rests on the differential run (faithful model vs implementation).
 """
 from common import *
 import elab_common as ec
@@ -367,15 +374,7 @@ def gen_design(rng, name, inj):
   b.add_blocks('parent+field' if inj.startswith('same-blk:parent+field') else None)
   add_ff_blocks(rng, d, b)
   want = rng.choice([1, 2, 3, 4, 6, 9])
-  n = 0
-  if 'blk-parent+field' in d.features:
-    # force a net that is driven by a sibling field of the re-written field
-    h, st = [(h, st) for h, st in d.blocks() if len(st[4]) == 2 and st[4][0][0].sig is st[4][1][0].sig and st[4][0][0].chain == []][-1]
-    e1 = st[4][1][0]; x = e1.sig
-    sibs = [q for q in parts(x) if q[0] != '' and not (q[2] < e1.hi and e1.lo < q[3])]
-    if sibs:
-      q = rng.choice(sibs); w = EP(x, q[0], q[1], q[2], q[3], q[4])
-      n += b.add_net(force_writer=w)
+  n = c08.force_sibling_net(rng, d, b)
   for _ in range(30):
     if n >= want: break
     n += b.add_net(overlap_readers=(inj == 'same-net-overlap' and 'same-net-overlap' not in d.features))
@@ -556,3 +555,20 @@ def main(ctx):
     ctx.violation('C09:harness-crash', f'correspondence could not run: {e!r}', {'traceback': traceback.format_exc()}, found_input=False)
   return ctx.finish(rule='constructively legal random hierarchy (1-3 levels, Bits/struct signals, slices, fields, constants, update and update_ff blocks, nets through child ports) '
                          '+ exactly one injection from a catalogue of 43 defect / near-miss kinds; each under 10 statement orders x side flips; distinct = (design, order)')
+
+def replay(ctx, r):
+  """./check C09 --replay f : re-elaborate the stored design(s) and compare with the recorded model verdict"""
+  seen = ec.replay_sources(ctx, r)
+  rp = r.get('replay', {})
+  rc = 0
+  allo = set()
+  for k, o in seen.items(): allo |= set(o)
+  if len(allo) > 1: print('REPRODUCED: the same statements give different outcomes:', sorted(allo)); rc = 1
+  mv = rp.get('model_verdict')
+  if mv is not None:
+    name = {v: k for k, v in FAMILY.items()}
+    exp = 'accepted' if mv == 'accepted' else next((k for k, c in FAMILY.items() if FAMNAME[c] == mv), mv)
+    print(f'model verdict: {mv} (expected outcome class: {exp})')
+    if any(o != exp for o in allo): print('REPRODUCED: elaboration outcome differs from the decision model'); rc = 1
+  shutil.rmtree(ctx.scratch, ignore_errors=True)
+  return rc
